@@ -8,9 +8,13 @@ pub mod tree;
 pub mod ghost;
 pub mod pspec;
 pub mod layer_e;
+pub mod gl;
+pub mod c11;
 pub use boundary::*;
 pub use nec::*;
 pub use tree::*;
 pub use ghost::*;
 pub use pspec::*;
 pub use layer_e::*;
+pub use gl::*;
+pub use c11::*;
